@@ -269,8 +269,10 @@ var timeFuncs = map[string]string{"Now": "Now", "Since": "Since", "Until": "Unti
 	// variables of type *time.Timer keep compiling)
 	"NewTimer": "NewTimer", "AfterFunc": "AfterFunc", "NewTicker": "NewTicker", "Tick": "Tick", "Timer": "Timer", "Ticker": "Ticker"}
 var timeUnseamed = map[string]bool{}
-var ctxFuncs = map[string]string{"WithCancel": "CtxWithCancel", "WithTimeout": "CtxWithTimeout", "WithDeadline": "CtxWithDeadline"}
-var ctxUnseamed = map[string]bool{"WithCancelCause": true, "WithTimeoutCause": true, "WithDeadlineCause": true, "AfterFunc": true}
+var ctxFuncs = map[string]string{"WithCancel": "CtxWithCancel", "WithTimeout": "CtxWithTimeout", "WithDeadline": "CtxWithDeadline",
+	"WithCancelCause": "CtxWithCancelCause", "WithTimeoutCause": "CtxWithTimeoutCause", "WithDeadlineCause": "CtxWithDeadlineCause",
+	"Cause": "CtxCause", "AfterFunc": "CtxAfterFunc"}
+var ctxUnseamed = map[string]bool{}
 var randFuncs = map[string]string{
 	"Int": "RandInt", "Intn": "RandIntn", "Int31": "RandInt31", "Int31n": "RandInt31n", "Int63": "RandInt63",
 	"Int63n": "RandInt63n", "Uint32": "RandUint32", "Uint64": "RandUint64", "Float64": "RandFloat64",
